@@ -11,14 +11,21 @@ demo=$(python3 -c "import json;print(json.load(open('seed_demo/meta.json'))['dem
 git diff -- . ':!seed_demo' > /tmp/seed/$name.diff
 echo "== suite with change"; go test -vet=off -count=1 $(go list ./... | grep -v seed_demo) 2>&1 | grep -v "no test files" | tail -12; suite=${PIPESTATUS[0]}
 echo "== demo with change (expect FAIL)"; (eval "$demo") > /tmp/seed/$name.with.log 2>&1; with=$?; tail -5 /tmp/seed/$name.with.log
-git stash -q -- . ':!seed_demo' 2>/dev/null || git stash -q
+git apply -R /tmp/seed/$name.diff || { echo "cannot revert the change"; exit 3; }
 echo "== demo without change (expect PASS)"; (eval "$demo") > /tmp/seed/$name.without.log 2>&1; without=$?; tail -3 /tmp/seed/$name.without.log
-git stash pop -q
+git apply /tmp/seed/$name.diff
 echo "suite=$suite with=$with without=$without"
+# the check runs in a private copy of /verif (generated files, go.mod and the overlay are per-tree state), so /verif stays usable
+copy=/tmp/vcopy-$name
+rm -rf $copy; mkdir -p $copy
+rsync -a --exclude .git --exclude .work --exclude replays /verif/ $copy/
+mkdir -p $copy/replays $copy/.work
+echo "== check $pid against the change (in $copy)"
+( cd $copy && VERIF_REPO=$wt ./check $pid ) > /tmp/seed/$name.check.log 2>&1; crc=$?; grep -E "VIOLATION|KNOWN|theorems" /tmp/seed/$name.check.log
+mkdir -p /verif/seeded/$name
+rm -rf /verif/seeded/$name/replays; cp -r $copy/replays /verif/seeded/$name/replays 2>/dev/null
+rm -rf $copy
 cd /verif
-echo "== check $pid against the change"
-VERIF_REPO=$wt ./check $pid > /tmp/seed/$name.check.log 2>&1; crc=$?; grep -E "VIOLATION|KNOWN|theorems" /tmp/seed/$name.check.log
-/verif/tools/reset_repo.sh
 mkdir -p seeded/$name
 cp /tmp/seed/$name.diff seeded/$name/patch.diff
 rm -rf seeded/$name/demo; cp -r $wt/seed_demo seeded/$name/demo
